@@ -17,6 +17,13 @@ import (
 // budget. It is never a property violation.
 var ErrInconclusive = errors.New("VERIF-INCONCLUSIVE: quiescence not reached within the budget")
 
+// ErrStalled is the special case of ErrInconclusive in which, for the last StallAfter of
+// real time, work was pending (bytes unread, a connection not waiting for input, a publish
+// queued) and yet nothing moved at all: no byte read or written, no append, no gossip. A
+// busy or starved broker keeps moving; one that is blocked on a lock nobody releases does
+// not. Only C18 ("cannot stall other clients") turns it into a verdict, after re-execution.
+var ErrStalled = fmt.Errorf("%w: no progress at all while work was pending", ErrInconclusive)
+
 // GossipMsg is one broadcast collected from a node's transmit queue.
 type GossipMsg struct {
 	From uint64
@@ -36,6 +43,7 @@ type Cluster struct {
 	// (the default). Off: the case decides (DeliverGossip...).
 	AutoGossip   bool
 	SettleBudget time.Duration
+	StallAfter   time.Duration // default: 10 s, at most 2/3 of SettleBudget
 
 	activity    int64
 	seq         int64
@@ -278,6 +286,7 @@ func (cl *Cluster) Settle() error {
 	last := int64(-1)
 	flushed := false
 	why := ""
+	lastMove := time.Now()
 	for {
 		progressed := false
 		for _, c := range cl.Clients {
@@ -303,6 +312,9 @@ func (cl *Cluster) Settle() error {
 				flushed = false
 			}
 		}
+		if sig != last || progressed {
+			lastMove = time.Now()
+		}
 		last = sig
 		if stable >= 3 {
 			if flushed {
@@ -323,6 +335,16 @@ func (cl *Cluster) Settle() error {
 			continue
 		}
 		if time.Now().After(deadline) {
+			stallAfter := cl.StallAfter
+			if stallAfter == 0 {
+				stallAfter = 10 * time.Second
+			}
+			if m := cl.SettleBudget * 2 / 3; stallAfter > m {
+				stallAfter = m
+			}
+			if !ok && time.Since(lastMove) >= stallAfter {
+				return fmt.Errorf("%w for %v (%s)", ErrStalled, time.Since(lastMove).Round(time.Second), why)
+			}
 			return fmt.Errorf("%w (%s)", ErrInconclusive, why)
 		}
 		time.Sleep(200 * time.Microsecond)
